@@ -1293,6 +1293,10 @@ extern "C" {
             break;
           }
           case dr_dag_node_kind_other: 
+            /* the edge from x to its successor */
+            if (x->next) {
+              s->info.logical_edge_counts[dr_dag_edge_kind_other_cont]++;
+            }
             break;
           case dr_dag_node_kind_section:
             if (x->next) {
